@@ -90,9 +90,10 @@ structure St where
   ctxCancelled : Bool := false
   deriving Repr
 
-/-- with a cancelled context a running/paused worker may already have been stopped by the listener -/
+/-- with a cancelled context a running/paused worker may already have been stopped by the listener,
+    or be observed in the middle of that stop (which passes through Paused) -/
 def agree (s : St) (ref : WStatus) (obs : Option WStatus) : Bool :=
-  obs == some ref || (s.ctxCancelled && (ref == .running || ref == .paused) && obs == some .stopped)
+  obs == some ref || (s.ctxCancelled && (ref == .running || ref == .paused) && (obs == some .stopped || obs == some .paused))
 
 def onEvent (s : St) (_ : Book) (o : Obs) (_ : Book) : St × List Viol :=
   match o with
